@@ -51,3 +51,33 @@ EXTERNALS = {
     'random.Random': ext_random_new,
 }
 EXTERNALS = {k: v for k, v in EXTERNALS.items() if v is not None}
+
+
+# ---------------------------------------------------------------------------------- ghost effects
+def eff_sched_ghost_init(eng, env, pre):
+    """Per-call monitors of execute_systems: nothing has run yet in this timestep."""
+    eng.S.h[('g', 'runs')] = z3.K(I, z3.IntVal(0))
+    eng.S.h[('g', 'last')] = z3.IntVal(0)
+
+
+def eff_system_execute(eng, env, pre):
+    """Ghost bookkeeping + assumed frame of user code System.execute (DESIGN Appendix B)."""
+    me = env['self'].term
+    runs = eng.arr(('g', 'runs'))
+    eng.S.h[('g', 'runs')] = z3.Store(runs, me, z3.Select(runs, me) + 1)
+    eng.S.h[('g', 'last')] = me
+    # _status only ever moves RUNNING -> COMPLETE (user code may call model.complete(), never un-complete)
+    old = eng.arr(('f', '_status'), pre)
+    new = eng.arr(('f', '_status'))
+    r = z3.Int('r')
+    eng.fact(z3.ForAll([r], z3.Or(z3.Select(new, r) == z3.Select(old, r),
+                                  z3.And(z3.Select(old, r) == 0, z3.Select(new, r) == 1))))
+    eng.used_assumption('System.execute (user code): may complete the model and edit agents/components/environment; '
+                        'does not write timestep, the system set, or id/priority/start/end/frequency of systems; '
+                        'never resets a completed model')
+
+
+EFFECTS = {
+    'sched_ghost_init': eff_sched_ghost_init,
+    'system_execute': eff_system_execute,
+}
